@@ -5,6 +5,10 @@ for v in "$@"; do
   cd "$wt" && git checkout -q -- . && rm -f $tdir/seeded_demo*_test.go
   cp SEED/patch_$v.diff SEED/patch.diff
   cp SEED/demo_${v}_test.go $tdir/seeded_demo_${v}_test.go
+  # an optional helper shared by the demos (SEED_HELPER = file name inside SEED/)
+  [ -n "$SEED_HELPER" ] && cp SEED/$SEED_HELPER $tdir/seeded_demo_zz_helper_test.go
   /verif/tools/confirm_seed.sh "$wt" ${prop}-s${SEED_ROUND:-1}$v $prop $tdir "${SEED_TEST_ARGS:--run TestSeeded}" 2>&1 | tail -2
+  [ -n "$SEED_HELPER" ] && [ -d /verif/seeded/${prop}-s${SEED_ROUND:-1}$v ] && cp SEED/$SEED_HELPER /verif/seeded/${prop}-s${SEED_ROUND:-1}$v/
+
 done
 cd "$wt" && git checkout -q -- . && rm -f $tdir/seeded_demo*_test.go
